@@ -44,41 +44,40 @@ impl Parse for Ident {
 }
 
 fn parse_type_ident(input: ParseStream) -> Result<String> {
-    // dodgy hack to "support" generics for now
+    // dodgy hack to "support" generics for now: `Name<Argument>` (the argument possibly
+    // generic again) is kept as one name
     let ident: syn::Ident = input.parse()?;
     let mut name = ident_to_string(&ident);
 
-    loop {
-        if input.peek(Token![<]) {
-            input.parse::<Token![<]>()?;
-            name += "<";
-        } else if input.peek(syn::Ident) {
-            let ident: syn::Ident = input.parse()?;
-            name += &ident_to_string(&ident);
-        } else if input.peek(Token![>]) {
-            input.parse::<Token![>]>()?;
-            name += ">";
-        } else {
-            break Ok(name);
-        }
+    let mut open_brackets = 0usize;
+    while input.peek(Token![<]) {
+        input.parse::<Token![<]>()?;
+        let argument: syn::Ident = input.parse()?;
+        name += "<";
+        name += &ident_to_string(&argument);
+        open_brackets += 1;
     }
+    for _ in 0..open_brackets {
+        input.parse::<Token![>]>()?;
+        name += ">";
+    }
+    Ok(name)
 }
 
 impl Parse for ItemPath {
     fn parse(input: ParseStream) -> Result<Self> {
+        // segments separated by double colons, at least one
         let mut item_path = ItemPath::empty();
         loop {
-            // todo: make parsing stricter so that this takes idents
-            // separated by double-colons that end in a type, not just
-            // all types
+            // todo: make parsing stricter so that only the last segment can be a type
             // that is to say, `use lol<lol>::lol` should not parse, but
             // `use lol::lol<lol>` should
-            if input.peek(syn::Ident) {
-                item_path.push(parse_type_ident(input)?.into());
-            } else if input.peek(Token![::]) {
-                input.parse::<Token![::]>()?;
-            } else if input.peek(Token![super]) {
+            if input.peek(Token![super]) {
                 return Err(input.error("super not supported"));
+            }
+            item_path.push(parse_type_ident(input)?.into());
+            if input.peek(Token![::]) {
+                input.parse::<Token![::]>()?;
             } else {
                 break;
             }
